@@ -106,10 +106,11 @@ def build():
                  env=GOENV, cwd=os.path.join(ROOT, "harness"), timeout=1500)
     if rc != 0:
         raise Inconclusive("harness does not build against /repo:\n" + out[-4000:])
-    rc, out = sh(["go", "build", "-tags", "verif", "-o", os.path.join(WORK, "bin/evdriver"), "./cmd/evdriver"],
-                 env=GOENV, cwd=os.path.join(ROOT, "harness"), timeout=1500)
-    if rc != 0:
-        raise Inconclusive("events driver does not build against /repo:\n" + out[-4000:])
+    for exe in ("evdriver", "fdriver"):
+        rc, out = sh(["go", "build", "-tags", "verif", "-o", os.path.join(WORK, "bin", exe), "./cmd/" + exe],
+                     env=GOENV, cwd=os.path.join(ROOT, "harness"), timeout=1500)
+        if rc != 0:
+            raise Inconclusive("%s does not build against /repo:\n" % exe + out[-4000:])
     log("build: %.1fs" % (time.time() - t0))
 
 
@@ -377,17 +378,18 @@ def run_corpus(scenarios, tag, shards=None):
         i, p = item
         trace = os.path.join(rundir, "trace%d.ndjson" % i)
         stats = os.path.join(rundir, "stats%d.json" % i)
-        if tag == "events":
-            rc, out = sh([os.path.join(WORK, "bin/evdriver"), "-scenarios", p, "-out", trace, "-work", os.path.join(rundir, "db%d" % i)], timeout=3000)
+        if tag in ("events", "bancor"):
+            exe, module = {"events": ("evdriver", "MCEvTrace"), "bancor": ("fdriver", "MCBcTrace")}[tag]
+            rc, out = sh([os.path.join(WORK, "bin", exe), "-scenarios", p, "-out", trace, "-work", os.path.join(rundir, "db%d" % i)], timeout=3000)
             if rc != 0:
-                return {"error": "events driver rc=%d: %s" % (rc, out[-1500:])}
-            r = run_tlc_trace(trace, os.path.join(rundir, "meta%d" % i), module="MCEvTrace")
+                return {"error": "%s rc=%d: %s" % (exe, rc, out[-1500:])}
+            r = run_tlc_trace(trace, os.path.join(rundir, "meta%d" % i), module=module)
             r["trace"] = trace
             classes, scs = {}, set()
             for line in open(trace):
                 rec = json.loads(line)
                 scs.add(rec["sc"])
-                k = rec["kind"] + ("/" + rec["ev"]["t"] if rec.get("ev") else "") + ("/panic" if rec["panic"] else "")
+                k = rec["kind"] + ("/" + rec["ev"]["t"] if rec.get("ev") else "") + ("/%s/crr%s" % (rec["fn"], rec["crr"]) if rec.get("fn") else "") + ("/panic" if rec["panic"] else "")
                 classes[k] = classes.get(k, 0) + 1
             r["classes"], r["samples"], r["stats"] = classes, [], {"scenarios": len(scs), "records": sum(classes.values())}
             return r
